@@ -170,6 +170,23 @@ def fitV {σ : Type} (cfg : Cfg) (g : CbGuard) (chk : ResultCheck) (n : Nat) (bs
 /-- the interpreter at the lifted configuration, guard and result check -/
 def fitVSrc {σ : Type} := @fitV σ AdvScheduleSrc.cfg AdvScheduleSrc.cbGuard AdvScheduleSrc.cbResultCheck
 
+/-- outcome of `fit` on a fresh estimator -/
+inductive FitOut (σ : Type) where
+  /-- `__setup` (run by `_validate_input`, before anything else) rejected batch_size / epochs / max_iter -/
+  | setupError (e : ExcKind)
+  /-- epochs and max_iter both unset: ValueError after the set-up -/
+  | rejected
+  | done (r : StV σ)
+
+/-- `fit` for ANY integer batch_size / epochs / max_iter: the lifted range checks of `__setup` come first -/
+def fitChecked {σ : Type} (n : Nat) (bs ep mi : Int) (cbs : List (Int → CbRes)) (trainStep : σ → Nat → Nat → σ) (s0 : σ) :
+    FitOut σ :=
+  if AdvScheduleSrc.paramRejected bs || AdvScheduleSrc.paramRejected ep || AdvScheduleSrc.paramRejected mi then
+    .setupError AdvScheduleSrc.paramRejectedExc
+  else match fitVSrc n bs ep mi cbs trainStep s0 with
+    | none => .rejected
+    | some r => .done r
+
 /-! ### predict -/
 
 /-- column chosen by a decision rule for one row of raw outputs (binary: the single output `o` against `t`) -/
@@ -227,7 +244,8 @@ def fmtPairs {α β} (f : α → String) (g : β → String) (l : List (α × β
   `schedsrc.fit <n> <batch_size|-1> <epochs|-1> <max_iter|-1> <x | stops of cb0;stops of cb1;...>`
         -> `err` | `<n_iter> <slices lo:hi,...> <calls cb:step,...>`   (interpreter at the LIFTED configuration)
   `schedsrc.fitv <n> <batch_size|-1> <epochs|-1> <max_iter|-1> <x | T|N|d;T|N|d;...>`  (see `parseCbV`)
-        -> `err` | `<n_iter> <slices> <calls> <- | exception kind>`   (lifted guard and result check)
+        -> `setup:<exception kind>` (a parameter fails the lifted range check; ANY integers are accepted here) | `err` |
+           `<n_iter> <slices> <calls> <- | exception kind>`   (lifted guard and result check)
   `schedsrc.predbin <classes> <threshold | d (lifted default)> <outputs>` -> labels | `unmodelled`
   `schedsrc.predmulti <classes> <output matrix>`                          -> labels | `unmodelled` -/
 def handle (toks : List String) : Option String :=
@@ -246,14 +264,16 @@ def handle (toks : List String) : Option String :=
         fmtPairs toString toString r.calls)
   | ["schedsrc.fitv", n, bs, ep, mi, cbs] => do
     let n ← Proto.parseNat n
-    let bs ← parseSentinel bs
-    let ep ← parseSentinel ep
-    let mi ← parseSentinel mi
+    -- any integers: the domain guard is the LIFTED range check of `__setup` (inside `fitChecked`)
+    let bs ← Proto.parseInt bs
+    let ep ← Proto.parseInt ep
+    let mi ← Proto.parseInt mi
     let cbs ← if cbs = "x" then some [] else (cbs.splitOn ";").mapM parseCbV
     if n = 0 then none else
-    match fitVSrc n bs ep mi cbs (fun (log : List (Nat × Nat)) lo hi => log ++ [(lo, hi)]) [] with
-    | none => pure "err"
-    | some r => pure (toString r.st.nIter ++ " " ++ fmtPairs toString toString r.st.state ++ " " ++
+    match fitChecked n bs ep mi cbs (fun (log : List (Nat × Nat)) lo hi => log ++ [(lo, hi)]) [] with
+    | .setupError e => pure ("setup:" ++ fmtExc (some e))
+    | .rejected => pure "err"
+    | .done r => pure (toString r.st.nIter ++ " " ++ fmtPairs toString toString r.st.state ++ " " ++
         fmtPairs toString toString r.st.calls ++ " " ++ fmtExc r.raised)
   | ["schedsrc.predbin", cls, t, outs] => do
     let cls ← Proto.parseInts cls
